@@ -134,6 +134,8 @@ pub trait Space<VM: VMBinding>: 'static + SFT + Sync + Downcast {
         let Ok(res) = pr.get_new_pages(self.common().descriptor, pages_reserved, pages, tls) else {
             return None;
         };
+        #[cfg(mmtk_verif)]
+        crate::verif::verif_emit_acquire(self.get_name(), res.start, res.pages, res.new_chunk);
 
         debug!(
             "Got new pages {} ({} pages) for {} in chunk {}, new_chunk? {}",
